@@ -1689,3 +1689,199 @@ Proof.
   apply v2_store_ops_valid; auto. intros s d H. destruct (Hb s d H) as [A [B [C _]]]. auto.
 Qed.
 
+
+(* ==== the dependence of the v1 claim on A1 (B = infinity): one index entry in 1024 straddles a page boundary ==== *)
+(* the page-granular tear of a v1 index entry that straddles a page boundary (slot 1635: bytes 8191..8195) *)
+Definition pt_s0 : v1st :=
+  let i := mkV1 (v1_dat_init 0 0) v1_idx_init in
+  v1_apply_all i (v1_store_ops i [(1635, [1; 2; 3]); (0, repeat 7 200%nat)]).
+Definition pt_b : batch := [(1635, [9; 8; 7])].
+Definition pt_ops : list v1op := v1_store_ops pt_s0 pt_b.
+
+Example v1_page_tear_refuted :
+  cut_allowed 4096 (16 + 5 * 1635) 5 8192 /\
+  v1_raw_ok pt_b (flen (v1dat pt_s0)) pt_s0 pt_ops = true /\
+  nth_error pt_ops 3 = Some (WI 8191 (le 5 (flen (v1dat pt_s0)))) /\
+  let s3 := v1_apply_all pt_s0 (firstn 3 pt_ops) in
+  let torn := v1_apply s3 (WI 8191 (firstn 1 (le 5 (flen (v1dat pt_s0))))) in
+  rres_eqb (v1_read pt_s0 1635) (RData [1; 2; 3]) = true /\
+  rres_eqb (v1_read (v1_apply_all pt_s0 pt_ops) 1635) (RData [9; 8; 7]) = true /\
+  rres_eqb (v1_read torn 1635) RMissing = true.
+Proof.
+  split; [unfold cut_allowed; split; [lia|reflexivity]|].
+  vm_compute. repeat split; reflexivity.
+Qed.
+
+(* ==== PART 4: validity of the modelled v1 writer ==== *)
+
+(* ------------------------------------------------------------------------------------------------ *)
+(* the modelled version 1 writer obeys the discipline                                               *)
+
+Lemma v1_raw_ok_app : forall b L0 o1 o2 s,
+  v1_raw_ok b L0 s (o1 ++ o2) = v1_raw_ok b L0 s o1 && v1_raw_ok b L0 (v1_apply_all s o1) o2.
+Proof.
+  induction o1 as [|w r IH]; intros o2 s; [reflexivity|].
+  cbn [app v1_raw_ok v1_apply_all fold_left]. rewrite IH. rewrite andb_assoc. reflexivity.
+Qed.
+
+Lemma chunk5_le5 : forall v, chunk5 (le 5 v) 0 = le 5 v.
+Proof.
+  intros v. unfold chunk5. change (5 * 0)%nat with 0%nat. cbn [skipn].
+  apply firstn_all2. rewrite le_length. lia.
+Qed.
+
+(* the four writes of one tile, with an arbitrary 60-byte header image *)
+Definition v1_tile_shape (s : v1st) (slot : Z) (d hdr : list Z) : list v1op :=
+  [WD (flen (v1dat s)) (le 4 (zlen d)); WD (flen (v1dat s) + 4) d; WD 0 hdr;
+   WI (16 + 5 * slot) (le 5 (flen (v1dat s)))].
+
+Lemma v1_tile_ops_shape : forall s slot d,
+  exists hdr, zlen hdr = 60 /\ v1_tile_ops s slot d = v1_tile_shape s slot d hdr.
+Proof.
+  intros s slot d. unfold v1_tile_ops, v1_tile_shape. cbv zeta.
+  eexists. split; [|reflexivity].
+  unfold zlen. rewrite !app_length, !fread_length, !le_length. reflexivity.
+Qed.
+
+Lemma v1_tile_shape_flen : forall s slot d hdr,
+  V1_REC <= flen (v1dat s) -> zlen hdr = 60 ->
+  flen (v1dat (v1_apply_all s (v1_tile_shape s slot d hdr))) = flen (v1dat s) + 4 + zlen d.
+Proof.
+  intros s slot d hdr Hf Hh. unfold v1_tile_shape.
+  assert (Hz : 0 <= zlen d) by (unfold zlen; lia).
+  cbn [v1_apply_all fold_left v1_apply v1dat v1idx].
+  rewrite !flen_fwrite, !zlen_le, Hh. change (Z.of_nat 4) with 4.
+  unfold V1_REC in *. lia.
+Qed.
+
+Lemma v1_tile_shape_ok : forall ball L0 s slot d hdr,
+  V1_REC <= flen (v1dat s) -> L0 <= flen (v1dat s) ->
+  flen (v1dat s) < 1099511627776 -> zlen hdr = 60 ->
+  0 <= slot < SLOTS -> d <> [] -> zlen d < 4294967296 ->
+  In (slot, d) ball ->
+  v1_raw_ok ball L0 s (v1_tile_shape s slot d hdr) = true.
+Proof.
+  intros ball L0 s slot d hdr Hf HL Hg Hh Hs Hd Hn Hin.
+  assert (Hz : 0 < zlen d).
+  { unfold zlen. destruct d; [congruence|cbn [length]; lia]. }
+  unfold v1_tile_shape.
+  set (L := flen (v1dat s)) in *. set (n := zlen d) in *.
+  cbn [v1_raw_ok v1_apply v1dat v1idx].
+  set (f1 := fwrite (v1dat s) L (le 4 n)).
+  set (f2 := fwrite f1 (L + 4) d).
+  set (f3 := fwrite f2 0 hdr).
+  assert (Hf1 : flen f1 = L + 4).
+  { unfold f1. rewrite flen_fwrite, zlen_le. change (Z.of_nat 4) with 4. fold L. lia. }
+  assert (Hf2 : flen f2 = L + 4 + n).
+  { unfold f2. rewrite flen_fwrite, Hf1. fold n. lia. }
+  assert (Hf3 : flen f3 = L + 4 + n).
+  { unfold f3. rewrite flen_fwrite, Hf2, Hh. unfold V1_REC in *. lia. }
+  rewrite !andb_true_iff. split; [|split; [|split; [|split; [|reflexivity]]]].
+  - unfold v1_step_ok. cbn [v1dat]. fold L. rewrite Z.eqb_refl. reflexivity.
+  - unfold v1_step_ok. cbn [v1dat]. rewrite Hf1, Z.eqb_refl. reflexivity.
+  - unfold v1_step_ok. cbn [v1dat]. apply orb_true_iff. right.
+    rewrite Hh. reflexivity.
+  - unfold v1_step_ok. rewrite zlen_le, le_length. change (Z.of_nat 5) with 5.
+    change (5 / 5)%nat with 1%nat. cbn [seq forallb]. change (Z.of_nat 0) with 0.
+    rewrite chunk5_le5.
+    rewrite unle_le by (change (256 ^ Z.of_nat 5) with 1099511627776; unfold V1_REC in *; lia).
+    replace (16 + 5 * slot - 16) with (slot * 5) by lia.
+    rewrite Z.mod_mul, Z.div_mul by lia. rewrite Z.add_0_r.
+    replace (16 <=? 16 + 5 * slot) with true by (symmetry; apply Z.leb_le; lia).
+    replace (16 + 5 * slot + 5 <=? V1_IDX_END) with true
+      by (symmetry; apply Z.leb_le; unfold V1_IDX_END, SLOTS in *; lia).
+    change (0 =? 0) with true. change (5 mod 5 =? 0) with true. cbn [andb]. rewrite andb_true_r.
+    apply orb_true_iff. right.
+    cbn [v1dat]. unfold v1_published.
+    replace (L0 <=? L) with true by (symmetry; apply Z.leb_le; lia).
+    cbn [andb].
+    assert (R : rdnum f3 L 4 = Some n).
+    { unfold rdnum.
+      replace (L + Z.of_nat 4 <=? flen f3) with true
+        by (symmetry; apply Z.leb_le; change (Z.of_nat 4) with 4; lia).
+      f_equal.
+      assert (E : fread f3 L 4 = le 4 n).
+      { transitivity (fread f1 L 4).
+        - apply fread_ext. change (Z.of_nat 4) with 4. intros i Hi.
+          unfold f3, f2. rewrite fbyte_fwrite_out by (unfold V1_REC in *; lia).
+          apply fbyte_fwrite_out. lia.
+        - unfold f1. replace 4%nat with (length (le 4 n)) at 2 by apply le_length.
+          apply fread_fwrite_same. unfold V1_REC in *. lia. }
+      rewrite E. apply unle_le. change (256 ^ Z.of_nat 4) with 4294967296. lia. }
+    rewrite R.
+    replace (n =? 0) with false by (symmetry; apply Z.eqb_neq; lia).
+    replace (L + 4 + n <=? flen f3) with true by (symmetry; apply Z.leb_le; lia).
+    cbn [negb andb].
+    replace (Z.to_nat n) with (length d) by (unfold n, zlen; lia).
+    assert (E : fread f3 (L + 4) (length d) = d).
+    { transitivity (fread f2 (L + 4) (length d)).
+      - apply fread_ext. intros i Hi. unfold f3.
+        apply fbyte_fwrite_out. unfold V1_REC in *. lia.
+      - unfold f2. apply fread_fwrite_same. unfold V1_REC in *. lia. }
+    rewrite E.
+    unfold has_data. apply existsb_exists. exists (slot, d). split; [exact Hin|].
+    cbn [fst snd]. rewrite Z.eqb_refl, zlist_eqb_refl. reflexivity.
+Qed.
+
+Lemma v1_store_ops_valid_gen : forall bs ball L0 s,
+  incl bs ball -> V1_REC <= flen (v1dat s) -> L0 <= flen (v1dat s) ->
+  flen (v1dat s) + total_len bs <= 1099511627776 ->
+  (forall slot d, In (slot, d) bs -> 0 <= slot < SLOTS /\ d <> [] /\ zlen d < 4294967296) ->
+  v1_raw_ok ball L0 s (v1_store_ops s bs) = true.
+Proof.
+  induction bs as [|[slot d] r IH]; intros ball L0 s Hincl Hf HL Hg Hb; [reflexivity|].
+  cbn [v1_store_ops]. cbv zeta. rewrite v1_raw_ok_app.
+  cbn [total_len snd] in Hg. pose proof (total_len_nonneg r) as Hr.
+  assert (Hz : 0 <= zlen d) by (unfold zlen; lia).
+  destruct (Hb slot d (or_introl eq_refl)) as [Hs [Hd Hn]].
+  assert (Hpos : 0 < zlen d).
+  { unfold zlen. destruct d; [congruence|cbn [length]; lia]. }
+  destruct (v1_tile_ops_shape s slot d) as [hdr [Hh Eo]]. rewrite Eo.
+  apply andb_true_iff. split.
+  - apply v1_tile_shape_ok; auto; try lia. apply Hincl. left. reflexivity.
+  - apply IH.
+    + intros e He. apply Hincl. right. exact He.
+    + rewrite v1_tile_shape_flen by assumption. lia.
+    + rewrite v1_tile_shape_flen by assumption. lia.
+    + rewrite v1_tile_shape_flen by assumption. lia.
+    + intros s' d' H'. apply Hb. right. exact H'.
+Qed.
+
+Definition v1_batch_ok (b : batch) : Prop :=
+  forall slot d, In (slot, d) b -> 0 <= slot < SLOTS /\ d <> [] /\ zlen d < 4294967296.
+
+Theorem v1_store_ops_valid : forall b s0,
+  v1_wf s0 -> flen (v1dat s0) + total_len b <= 1099511627776 -> v1_batch_ok b ->
+  v1_raw_ok b (flen (v1dat s0)) s0 (v1_store_ops s0 b) = true.
+Proof.
+  intros b s0 [Hl _] Hg Hb. apply v1_store_ops_valid_gen; auto; try lia. apply incl_refl.
+Qed.
+
+Lemma batch_ok_no_empty : forall b,
+  (forall slot d, In (slot, d) b -> d <> []) -> forall s, has_data b s [] = false.
+Proof.
+  intros b Hb s. destruct (has_data b s []) eqn:E; [|reflexivity].
+  unfold has_data in E. apply existsb_exists in E. destruct E as [[s' d] [Hin E]].
+  cbn [fst snd] in E. apply andb_true_iff in E. destruct E as [_ E].
+  apply zlist_eqb_true in E. exfalso. apply (Hb s' d Hin). exact E.
+Qed.
+
+Theorem v1_store_crash_safe : forall b s0 s' slot,
+  v1_wf s0 -> flen (v1dat s0) + total_len b <= 1099511627776 -> v1_batch_ok b ->
+  In s' (v1_crash_states s0 (v1_store_ops s0 b)) -> 0 <= slot < SLOTS ->
+  v1_read s' slot = v1_read s0 slot \/
+  exists dd, has_data b slot dd = true /\ dd <> [] /\ v1_read s' slot = RData dd.
+Proof.
+  intros b s0 s' slot Hwf Hg Hb Hin Hs.
+  apply (v1_crash_safe_nonempty_batch b s0 (v1_store_ops s0 b)); auto.
+  - apply v1_store_ops_valid; auto.
+  - apply batch_ok_no_empty. intros s d H. destruct (Hb s d H) as [_ [B _]]. exact B.
+Qed.
+
+Theorem v1_store_wf : forall b s0,
+  v1_wf s0 -> flen (v1dat s0) + total_len b <= 1099511627776 -> v1_batch_ok b ->
+  v1_wf (v1_apply_all s0 (v1_store_ops s0 b)).
+Proof.
+  intros b s0 Hwf Hg Hb. apply (v1_wf_preserved b); auto. apply v1_store_ops_valid; auto.
+Qed.
+
